@@ -13,6 +13,7 @@ import mirq
 from mirq import show, access_path, AnchorMissing, const_of, walk
 from rulekit import Table
 from rules import common as C
+from rules import vocab as V
 
 TABLE = Table('C03')
 NOT_DECIDED = ('that the per-piece lengths partition the content and that the bytes written equal the '
@@ -38,6 +39,19 @@ def extractor_fn(F):
         out = [(f, sp) for f, sp in out if f.path not in callees]
     F._c03_extractor = C.one([sp for f, sp in out], 'function that creates files and writes them (the extractor)')
     return F._c03_extractor
+
+
+def total_length_fn(F):
+    """the accessor that sums the file lengths"""
+    fl = V.file_length(F)
+    cands = []
+    for f in F.user_fns():
+        if f.self_ty == V.MI and f.kind == 'AssocFn' and f.locals[0]['ty'] == 'u64' and f.argc == 1:
+            bodies = [f] + [F.fns[c] for c in F.children(f.path)]
+            if any(mirq.field_touches(b, 'metainfo::File', fl) for b in bodies) and \
+                    any(b.expr_call(bb)[4].get('name') in ('sum', 'fold') for b in bodies for bb in mirq.real_calls(b)):
+                cands.append(f)
+    return C.one(cands, 'total length accessor (sum of file lengths)')
 
 
 def pos_fields(F):
@@ -134,6 +148,15 @@ def r2(cx, rec):
                     tuples.append((bb, x))
     rec.need(len(tuples) == 1, 'ranges-shape', R, None, 'ranges are not pushed as one (path, start, end) triple per file')
     for bb, t in tuples:
+        # one triple per listed file: inside the loop over the files no path reaches the next iteration without the push
+        nxt = [nb for nb in mirq.real_calls(R) if R.expr_call(nb)[1] == 'std::iter::Iterator::next' and bb in R.reach_from(nb) and nb in R.reach_from(bb)]
+        for nb in nxt:
+            for s2, st in R.outcome_edges(nb).get('some', []):
+                ok, bad = C.must_pass(R, [bb], [nb], start=st)
+                rec.need(ok, 'ranges-skip', R, nb, 'a listed file can be skipped: an iteration over the file list reaches the next one without '
+                         'recording a range (e.g. zero-length files are never created)')
+        rec.need(bool(nxt), 'ranges-loop', R, bb, 'the range triple is not recorded once per element of a loop over the file list') if not any(
+            R.expr_call(b2)[4].get('name') in ('map', 'for_each') for b2 in mirq.real_calls(R)) else None
         p0, p1, p2 = [v for _, v in t[4]]
         pp = [x for x in (p1, p2) if x[0] == 'call' and x[1] in F.fns]
         rec.site(R, bb, 'triple (%s, %s, %s)' % (show(p0)[:50], show(p1)[:60], show(p2)[:90]))
@@ -146,7 +169,7 @@ def r2(cx, rec):
             while inner[0] == 'field' and inner[2] == '0':
                 inner = inner[1]
             ok_end = inner[0] == 'binop' and inner[1].startswith('Add') and access_path(inner[2]) == pos and \
-                (access_path(inner[3]) or '').endswith('.length')
+                (access_path(inner[3]) or '').endswith('.' + V.file_length(F))
             rec.need(pos is not None and ok_end, 'ranges-end', R, bb, 'end position is %s, not start position + file length' % show(a2)[:100])
             # pos accumulates length after the push, inside the loop
             acc = False
@@ -155,7 +178,7 @@ def r2(cx, rec):
                     x = R.expr_rvalue(s['rv'])
                     while x[0] == 'field' and x[2] == '0':
                         x = x[1]
-                    if x[0] == 'binop' and x[1].startswith('Add') and access_path(x[2]) == pos and (access_path(x[3]) or '').endswith('.length'):
+                    if x[0] == 'binop' and x[1].startswith('Add') and access_path(x[2]) == pos and (access_path(x[3]) or '').endswith('.' + V.file_length(F)):
                         if bi in R.reach_from(bb) and bb in R.reach_from(bi):
                             acc = True
                             rec.site(R, bi, '%s += length' % pos)
@@ -179,7 +202,7 @@ def r3(cx, rec):
         for name, op in zip(pos_fields(F), ('Div', 'Rem')):
             x = fields.get(name)
             ok = x is not None and x[0] == 'binop' and x[1] == op and C.param_pos(P, x[2]) == 2 and access_path(x[2]) == C.params_of(P)[-1][0] and \
-                (access_path(x[3]) or '') == 'self.piece_length'
+                (access_path(x[3]) or '') == 'self.' + V.meta_piece_length(F)
             rec.need(ok, 'piece-pos/' + name, P, bi, '%s is %s, expected %s(pos, piece_length)' % (name, show(x)[:80] if x else None, op))
 
 
@@ -188,15 +211,13 @@ def r3(cx, rec):
 def r4(cx, rec):
     F = cx.F
     L = None
-    for f in F.user_fns():
-        if f.self_ty == 'metainfo::Metainfo' and f.name == 'piece_length':
-            L = f
     if L is None:
         cands = [f for f in F.user_fns() if f.self_ty == 'metainfo::Metainfo' and any(x[0] == 'binop' and x[1] == 'Rem' for bi, si, s in f.assigns() for x in walk(f.expr_rvalue(s['rv'])))
                  and 'usize' == f.locals[0]['ty'] and f.argc == 2]
         L = C.one(cands, 'per-piece length accessor')
     rets = [(bi, L.expr_rvalue(s['rv'])) for bi, si, s in L.assigns() if s['lhs']['l'] == 0 and not s['lhs'].get('p')]
-    full = [bi for bi, e in rets if access_path(e) == 'self.piece_length']
+    PL = 'self.' + V.meta_piece_length(F)
+    full = [bi for bi, e in rets if access_path(e) == PL]
     rem = [bi for bi, e in rets if access_path(e) is None or access_path(e) == 'last']
     # guard 1: index < len(pieces) - 1 -> full
     g1 = g2 = False
@@ -208,14 +229,14 @@ def r4(cx, rec):
                 rhs = e[3]
                 while rhs[0] == 'field' and rhs[2] == '0':
                     rhs = rhs[1]
-                if rhs[0] == 'binop' and rhs[1].startswith('Sub') and const_of(rhs[3]) and const_of(rhs[3])[0] == 1 and 'pieces' in show(rhs[2]):
+                if rhs[0] == 'binop' and rhs[1].startswith('Sub') and const_of(rhs[3]) and const_of(rhs[3])[0] == 1 and V.mentions_field(rhs[2], V.MI, V.meta_hashes(F)):
                     r_true = L.reach_from(tt, cut_blocks=[sb])
                     if any(b in r_true for b in full) and not any(b in r_true for b in rem if b not in full):
                         g1 = True
                         rec.site(L, sb, 'not the last piece -> piece length')
             if e[1] in ('Ne', 'Eq') and const_of(e[3]) and const_of(e[3])[0] == 0:
                 lhs = mirq.init_of(e[2])
-                if lhs[0] == 'binop' and lhs[1] == 'Rem' and 'total_length' in show(lhs[2]) and (access_path(lhs[3]) or '') == 'self.piece_length':
+                if lhs[0] == 'binop' and lhs[1] == 'Rem' and any(y[0] == 'call' and y[1] == total_length_fn(F).path for y in walk(lhs[2], inl=False)) and (access_path(lhs[3]) or '') == PL:
                     nz = tt if e[1] == 'Ne' else ff
                     z = ff if e[1] == 'Ne' else tt
                     rz = L.reach_from(z, cut_blocks=[sb])
